@@ -123,7 +123,61 @@ def replay_graph(chk, rec, D, transitions, modes, probes):
     return drift, runs
 
 
-def random_trace(rec, rng, D, steps, gapcap):
+def _in_fresh_thread(fn, *a):
+    import threading
+    box = {}
+
+    def run():
+        try:
+            box["r"] = fn(*a)
+        except BaseException as e:  # noqa
+            box["e"] = e
+    t = threading.Thread(target=run)
+    t.start()
+    t.join()
+    if "e" in box:
+        raise box["e"]
+    return box.get("r")
+
+
+class _TwoWorkers:
+    """two long-lived threads taking turns"""
+
+    def __init__(self):
+        import threading, queue
+        self.qs = [queue.Queue(), queue.Queue()]
+        self.out = queue.Queue()
+        self.n = 0
+        for q in self.qs:
+            threading.Thread(target=self._loop, args=(q,), daemon=True).start()
+
+    def _loop(self, q):
+        while True:
+            item = q.get()
+            if item is None:
+                return
+            fn, a = item
+            try:
+                self.out.put(("r", fn(*a)))
+            except BaseException as e:  # noqa
+                self.out.put(("e", e))
+
+    def call(self, fn, *a):
+        self.n += 1
+        self.qs[self.n % 2].put((fn, a))
+        k, v = self.out.get()
+        if k == "e":
+            raise v
+        return v
+
+    def stop(self):
+        for q in self.qs:
+            q.put(None)
+
+
+def random_trace(rec, rng, D, steps, gapcap, caller=None):
+    """caller: how the (strictly sequential) calls reach the policer: None = the calling thread; otherwise a function
+    caller(fn, *args) that runs each call in another thread - the limiter's state belongs to the policer, not to a thread"""
     pol = _mk(D)
     rec.emit({"ev": "New", "D": D})
     base = BASE + rng.randrange(10 ** 6)
@@ -147,7 +201,7 @@ def random_trace(rec, rng, D, steps, gapcap):
         g = max(0, min(g, gapcap))
         ts = rel + g
         try:
-            r = pol.get_timeout(ts)
+            r = pol.get_timeout(ts) if caller is None else caller(pol.get_timeout, ts)
             delay = 0 if r is None else int(r)
         except Exception as e:
             rec.emit({"ev": "Crash", "exc": type(e).__name__})
@@ -415,6 +469,13 @@ def run(tier):
             gapcap = max(1, min(gapcap, 2 ** 31 - 1 - 2 * D))
             random_trace(rec, rng, D, steps, gapcap)
             ntr += 1
+    # the same sequential histories with every call made from another thread (a fresh thread per call; two threads taking turns)
+    tw = _TwoWorkers()
+    for D, steps in [(3, 60), (1000, 60), (10 ** 6, 60), (10 ** 8, 40)]:
+        for caller in (_in_fresh_thread, tw.call):
+            random_trace(rec, rng, D, steps, 3 * D, caller=caller)
+            ntr += 1
+    tw.stop()
     # realistic intervals (rps 2 .. 1000): calls landing at chosen fractions of a slot after k whole idle intervals
     for D in (10 ** 6, 10 ** 7, 10 ** 8, 5 * 10 ** 8):
         for rep in range(2 if not thorough else 10):
